@@ -988,6 +988,7 @@ func (v *Verifier) applySpecFunc(env *Env, sf *SpecFunc, args []SExpr) Val {
 		rt := v.resolveType(sfPkg, sf.Result)
 		f := v.ctx.declareFun("G!"+sf.PkgName+"."+sf.Name, sorts, scalarSort(rt))
 		v.libAxiomsFor(env, sf)
+		v.foreignAxiomsFor(env, sf)
 		return Val{K: kindOf(rt), T: rt, A: app(f, terms...)}
 	}
 	if t, ok := v.tryDefineFun(env, sf, sfPkg, avals); ok && os.Getenv("GOVC_NODEF") == "" {
@@ -1139,6 +1140,39 @@ func (v *Verifier) ghostFieldLoc(env *Env, base Val, name string) (*Loc, types.T
 	}
 	gt := v.resolveType(v.pkgByName(env.pkg, gf.Pkg), gf.Type)
 	return &Loc{Comp: "H:" + tn + "." + name, Ref: base.A, T: gt}, gt
+}
+
+// foreignAxiomsFor: a ghost function of another repository package than the one the verified function lives in
+// is used: assert (once) that package's axioms which mention it, evaluated in the entry state like the axioms of
+// the function's own package.
+func (v *Verifier) foreignAxiomsFor(env *Env, sf *SpecFunc) {
+	root := v.curRoot
+	if root == nil || sf.PkgName == "lib" || sf.PkgName == root.fn.Pkg.Pkg.Name() {
+		return
+	}
+	key := "foreignax:" + sf.PkgName + "." + sf.Name
+	if v.facts[key] {
+		return
+	}
+	v.facts[key] = true
+	for _, ax := range v.contracts.Axioms {
+		if ax.PkgName != sf.PkgName || !strings.Contains(ax.Text, sf.Name+"(") {
+			continue
+		}
+		akey := "foreignaxiom:" + ax.PkgName + "." + ax.Name
+		if v.facts[akey] {
+			continue
+		}
+		v.facts[akey] = true
+		pkg := v.pkgByName(root.fn.Pkg.Pkg, ax.PkgName)
+		if pkg == nil {
+			continue
+		}
+		ne := &Env{fr: root, vars: map[string]Val{}, cur: root.entrySt, old: root.entrySt, pkg: pkg}
+		t := v.evalBool(ne, ax.Expr)
+		v.ctx.assert(t, "axiom "+ax.PkgName+"."+ax.Name+": "+ax.Text)
+		v.axiomsUsed[ax.PkgName+"."+ax.Name] = true
+	}
 }
 
 // libAxiomsFor asserts (once per function encoding) the library axioms that define a library ghost function,
